@@ -81,6 +81,23 @@ def cases(ctx):
                     for r in range(3):
                         steps.append(["rx", REQUESTS[(r + top) % len(REQUESTS)] + "\n"])
                     yield {"version": version, "steps": steps}
+    # time passes between the requests (all clocks, vf.vclock): an id that was handed out stays taken however long the
+    # node that got it stays silent
+    from .. import codedict
+
+    jumps = [d for d in codedict.durations() if d >= 29]
+    for version in [None, *VERSIONS]:
+        for shape in ([], [1], [1, 2, 3], [5, 200]):
+            for start in range(0, len(jumps), 6):
+                if not ctx.mine():
+                    continue
+                count += 1
+                steps = shape_steps(rng, shape, via_wire=False)
+                for k, seconds in enumerate(jumps[start:start + 6]):
+                    steps.append(["rx", REQUESTS[k % len(REQUESTS)] + "\n"])
+                    steps.append(["clock", seconds])
+                steps += [["rx", REQUESTS[0] + "\n"], ["rx", REQUESTS[1] + "\n"]]
+                yield {"version": version, "steps": steps}
     ctx.exhaustive["shape-x-version-x-requests"] = count
     # random subsets, storms, faults
     for i in range(ctx.pick(150, 60000) // ctx.shard_count):
